@@ -252,6 +252,7 @@ func (dlv *Delivery) Calculate() error {
 	} else {
 		dlv.NormalizeRegime()
 	}
+	applyCustomerRates(dlv)
 	dlv.Normalize(dlv.normalizers())
 	return calculate(dlv)
 }
